@@ -464,8 +464,12 @@ with gen_stmts (sz : nat) (E : genv) (vs : option ty) (r : rng) {struct sz} : li
         let rot := Z.to_nat (rn r 1 3) in
         let full := orb (rb r 2 3 4) (negb (gInTry E || gThr E)) in
         let ks := if full then [rot; (rot + 1) mod 3; (rot + 2) mod 3]%nat else [rot] in
-        [STry (gen_block k (no_top_loop (set_try E (full || gInTry E))) None (S (Z.to_nat (rn r 3 3))) (ch r 4))
-              (map (fun j => (j, gen_block k (no_top_loop E) None (Z.to_nat (rn r (5 + Z.of_nat j) 2)) (ch r (8 + Z.of_nat j)))) ks)]
+        (* no break / iterate / return out of a try block: the pinned compiler turns `iterate`
+           inside a `try` body into a goto to a label of another C function ("label used but not
+           defined") and the interpreter crashes (reported as a finding)                         *)
+        let Et := no_ret (set_loop E false) in
+        [STry (gen_block k (no_top_loop (set_try Et (full || gInTry E))) None (S (Z.to_nat (rn r 3 3))) (ch r 4))
+              (map (fun j => (j, gen_block k (no_top_loop Et) None (Z.to_nat (rn r (5 + Z.of_nat j) 2)) (ch r (8 + Z.of_nat j)))) ks)]
       else if (c <? 19) && fExn (gFe E) && (gInTry E || gThr E) then
         if gNoIf E then [] else [SIf (gen_expr k (no_top_loop E) MAny TBool (ch r 1)) [SThrow (Z.to_nat (rn r 2 3))] []]
       else if fErr (gFe E) && rb r 1 1 3 then
